@@ -122,12 +122,14 @@ def gen_facts():
         rc, out = sh(["go", "run", ".", REPO], cwd=fdir, env=env, timeout=300)
     if rc != 0:
         return False, out
-    marker = "-- ===FILE DoBody.lean===\n"
-    facts, _, dobody = out.partition(marker)
+    # the extractor prints several files, separated by `-- ===FILE <name>===` lines; the first is Facts.lean
+    parts = re.split(r"^-- ===FILE (\S+)===\n", out, flags=re.M)
+    files = {"Facts.lean": parts[0]}
+    for i in range(1, len(parts) - 1, 2):
+        files[parts[i]] = parts[i + 1]
     with Lock("lake"):
-        write_if_changed(os.path.join(LEAN, "F1Verif", "Generated", "Facts.lean"), facts)
-        if dobody:
-            write_if_changed(os.path.join(LEAN, "F1Verif", "Generated", "DoBody.lean"), dobody)
+        for name, content in files.items():
+            write_if_changed(os.path.join(LEAN, "F1Verif", "Generated", name), content)
     return True, ""
 
 
